@@ -204,18 +204,21 @@ class TriggerHandler:
                              function_name: str):
         # remove top context
         context: CallbackContext = self._callbacks.value.pop()
-        # if it is for our location process it
-        if context.at_location(event, file, line, function_name, frame):
-            logging.debug("At callback location %s", context.name)
-            context.process(ctx, event, frame, arg)
-        else:
-            logging.debug("Not at callback location %s", context.name)
-            # else put the context back on the queue
-            self._callbacks.value.append(context)
-
-        if len(self._callbacks.value) == 0:
-            logging.debug("Callbacks cleared.")
-            self._callbacks.clear()
+        try:
+            # if it is for our location process it
+            if context.at_location(event, file, line, function_name, frame):
+                logging.debug("At callback location %s", context.name)
+                context.process(ctx, event, frame, arg)
+            else:
+                logging.debug("Not at callback location %s", context.name)
+                # else put the context back on the queue
+                self._callbacks.value.append(context)
+        finally:
+            # also when a callback fails: an empty queue that stays registered makes every later event of this thread
+            # fail on the pop above
+            if len(self._callbacks.value) == 0:
+                logging.debug("Callbacks cleared.")
+                self._callbacks.clear()
 
     @staticmethod
     def location_from_event(event: str, frame: FrameType) -> Tuple[str, str, int, Optional[str]]:
